@@ -1514,10 +1514,11 @@ func (f *frame) siteOrd(key string, pos token.Pos) int {
 						add("recv "+chanSiteName(i.X), i.Pos())
 					}
 				case *ssa.Select:
-					// the receiving cases of a select count as receive sites of their channel
+					// the receiving cases of selects are sites of their own kind (selrecv), numbered apart from
+					// the plain receives: rewriting a select into a plain receive must not renumber those
 					for _, s := range i.States {
 						if s.Dir == types.RecvOnly {
-							add("recv "+chanSiteName(s.Chan), s.Pos)
+							add("selrecv "+chanSiteName(s.Chan), s.Pos)
 						}
 					}
 				}
